@@ -31,6 +31,32 @@ let lex_case id src =
   | LexModel.LexErr -> Printf.printf "lex %s err\n" id
   | LexModel.LexFuel -> Printf.printf "lex %s fuel\n" id
 
+(* ---- tsh ---- *)
+let split_nonempty c s = Stdlib.List.filter (fun x -> x <> "") (Stdlib.String.split_on_char c s)
+
+let tsh_case id argv fs infile rb rw =
+  let args = Stdlib.List.map bytes_of_hex (split_nonempty ',' argv) in
+  let entry e =
+    if Stdlib.String.get e 0 = 'd' then (bytes_of_hex (Stdlib.String.sub e 1 (Stdlib.String.length e - 1)), Tsh.Dir)
+    else begin
+      let body = Stdlib.String.sub e 1 (Stdlib.String.length e - 1) in
+      match Stdlib.String.index_opt body '.' with
+      | Some i -> (bytes_of_hex (Stdlib.String.sub body 0 i),
+                   Tsh.File (bytes_of_hex (Stdlib.String.sub body (i + 1) (Stdlib.String.length body - i - 1))))
+      | None -> (bytes_of_hex body, Tsh.File [])
+    end in
+  let fs0 = (bytes_of_hex "2e", Tsh.Dir) :: Stdlib.List.map entry (split_nonempty ',' fs) in
+  let inb = bytes_of_hex infile in
+  let res r = if r = "" || Stdlib.String.get r 0 = 'e' then None else Some (bytes_of_hex (Stdlib.String.sub r 1 (Stdlib.String.length r - 1))) in
+  let lib p t = if p = inb then (match t with Tsh.Bash -> res rb | Tsh.Batch -> res rw) else None in
+  let (fs1, out) = Tsh.tsh lib fs0 args in
+  let files = Stdlib.List.filter_map (fun (p, n) -> match n with Tsh.File c -> Some (hex_of_bytes p, hex_of_bytes c) | Tsh.Dir -> None) fs1 in
+  (* sort by the decoded path, like the harness *)
+  let unhex h = Stdlib.String.init (Stdlib.String.length h / 2) (fun i -> Char.chr (int_of_string ("0x" ^ Stdlib.String.sub h (2 * i) 2))) in
+  let files = Stdlib.List.sort (fun (a, _) (b, _) -> compare (unhex a) (unhex b)) files in
+  Printf.printf "tsh %s exit=%d %s\n" id (match out with Tsh.Exit0 -> 0 | Tsh.ExitPanic -> 1)
+    (Stdlib.String.concat "," (Stdlib.List.map (fun (p, c) -> p ^ ":" ^ c) files))
+
 let () =
   try
     while true do
@@ -38,6 +64,7 @@ let () =
       match Stdlib.String.split_on_char ' ' line with
       | ["lex"; id; src] -> lex_case id src
       | ["lex"; id] -> lex_case id ""
+      | ["tsh"; id; argv; fs; infile; rb; rw] -> tsh_case id argv fs infile rb rw
       | [] | [""] -> ()
       | k :: _ -> Printf.printf "unknown-case-kind %s\n" k
     done
